@@ -243,6 +243,59 @@ fn hand_shaped(ctx: &mut Ctx) {
     }
 }
 
+// ---------------------------------------------------------------- U-INS(k): every instruction sequence
+
+/// Every sequence of at most k instructions over a 20-letter alphabet (literals, drop, locals, a global,
+/// two labels with goto and branch, prints, array, two built-in calls, a function call, return), as the
+/// body of the entry method and as the body of a function called with one argument: control-flow and
+/// value-discard shapes no compiler would emit (test-last loops, jumps into the middle, values left on
+/// the stack at return, code after return). Judged by M; sequences that pop an empty operand stack,
+/// define a label twice or do not finish within 2 000 steps are outside "conforming" and are skipped.
+fn instruction_sequences(ctx: &mut Ctx) {
+    let k = if ctx.quick() { 4 } else { 6 };
+    let s = |x: &str| Const::Str(x.into());
+    // 0 main, 1 f, 2 g, 3 A, 4 B, 5 <~>, 6 +, 7 1, 8 null, 9 false, 10 x, 11 ==, 12 h, 13 slot g, 14 method h
+    let prefix = vec![s("main"), s("f"), s("g"), s("A"), s("B"), s("<~>"), s("+"), Const::Int(1), Const::Null, Const::Bool(false), s("x"), s("=="), s("h"), Const::Slot(2),
+        Const::Method { name: 12, arity: 1, locals: 0, code: vec![Ins::GetLocal(0), Ins::Lit(7), Ins::CallSlot(6, 2), Ins::Return] }];
+    let letters = [Ins::Lit(7), Ins::Lit(8), Ins::Lit(9), Ins::Drop, Ins::GetLocal(0), Ins::SetLocal(0), Ins::GetLocal(1), Ins::GetGlobal(2), Ins::SetGlobal(2),
+        Ins::Label(3), Ins::Goto(3), Ins::Branch(3), Ins::Label(4), Ins::Branch(4), Ins::Print(5, 1), Ins::Print(10, 0), Ins::Array, Ins::CallSlot(6, 2), Ins::CallSlot(11, 2), Ins::Call(12, 1), Ins::Return];
+    let n = letters.len() as u64;
+    for len in 1..=k {
+        ctx.stage(&format!("U-INS(k={}): every instruction sequence of this length, in the entry method and in a function", len));
+        let total = n.pow(len as u32);
+        for placement in 0..2 {
+            let mut i = 0u64;
+            while i < total {
+                let off = ctx.next_owned_offset();
+                if off > 0 { let step = off.min(total - i); ctx.skip(step); i += step; continue }
+                let idx = i; i += 1;
+                if ctx.take().is_none() { if ctx.capped { return } continue }
+                let mut code = vec![]; let mut c = idx;
+                for _ in 0..len { code.push(letters[(c % n) as usize]); c /= n }
+                code.push(Ins::Return);
+                let mut consts = prefix.clone();
+                let x = if placement == 0 {
+                    consts.push(Const::Method { name: 0, arity: 0, locals: 2, code: code.clone() });
+                    Prog { consts, globals: vec![13, 14], entry: 15 }
+                } else {
+                    consts.push(Const::Method { name: 1, arity: 1, locals: 1, code: code.clone() });
+                    consts.push(Const::Method { name: 0, arity: 0, locals: 0, code: vec![Ins::Lit(7), Ins::Call(1, 1), Ins::Print(5, 1), Ins::Return] });
+                    Prog { consts, globals: vec![13, 14, 15], entry: 16 }
+                };
+                let pre = refvm::run(&x, 2_000);
+                if pre.status == Status::Unspec || (pre.status == Status::Fail && pre.reason.contains("operand stack empty")) {
+                    ctx.count("programs", 1); ctx.count("unspecified", 1);
+                    ctx.count(if pre.status == Status::Unspec { "unspecified:sequence-without-meaning" } else { "unspecified:operand-stack-underflow" }, 1);
+                    continue;
+                }
+                conform(ctx, "instruction-sequence", &x, &|| json!({"placement": if placement == 0 { "entry method" } else { "function f called as f(1)" }, "sequence": format!("{:?}", code), "abstract": format!("{:?}", x)}));
+                if !pre.out.is_empty() { ctx.nontrivial(format!("{}:{:?}", placement, code).as_bytes()) }
+                if ctx.want_sample() { ctx.sample(json!({"universe": "U-INS", "placement": placement, "sequence": format!("{:?}", code)})) }
+            }
+        }
+    }
+}
+
 /// what `printf` shows for an object: every ordered selection of 1..3 field names out of 8 (names that
 /// are prefixes of each other, digits, upper case, underscore), under 4 parent kinds, plus one nested level
 fn rendering(ctx: &mut Ctx) {
@@ -280,6 +333,8 @@ fn rendering(ctx: &mut Ctx) {
 pub fn run(ctx: &mut Ctx) {
     hand_shaped(ctx);
     rendering(ctx);
+    instruction_sequences(ctx);
+    if ctx.capped { return }
     builtins(ctx);
     formats(ctx);
     ctx.stage("layout transformations of compiler output: U-SCALE");
